@@ -711,7 +711,17 @@ class strategy_smoother_fixedinterval(Smoother):
     def interpolate_fwd_at_t1(self, posterior_t1):
         marginals = posterior_t1.marginal
 
+        # Resume from t1 with a unit backward model: the backward model
+        # of 'posterior_t1' (from t1 to the previous step) is part of the
+        # reported solution, and 'finalize' expects the backward model of
+        # the resume-state to point to the last reported time (here: t1).
+        cond_identity = posterior_t1.marginal.identity_conditional()
+        resume_from = MarkovSequence(
+            posterior_t1.marginal,
+            conditional=cond_identity,
+            reverse=posterior_t1.reverse,
+        )
         interp_res = utilities.InterpResult(
-            step_from=posterior_t1, interp_from=posterior_t1
+            step_from=resume_from, interp_from=resume_from
         )
         return (marginals, posterior_t1), interp_res
